@@ -81,6 +81,7 @@ package parser
 // message is the parser's "unexpected EOF" that this interruption causes.
 //@ func (*lexer).error
 //@   ensures[C10 C03] error-recorded: l.err != nil
+//@   ensures[C01 C10] lexing-is-cancelled: !(old(l.err) != nil && strcontains(msg, ": unexpected EOF")) ==> closed(l.cancel)
 //@   ensures[C03] syntax-error-carries-name-position-message: old(l.err) == nil ==> l.err is Error && l.err.(Error).Name == l.name && l.err.(Error).Pos == pos && l.err.(Error).Msg == msg
 //@   ensures[C03] later-syntax-error-replaces-earlier: old(l.err) is Error && !strcontains(msg, ": unexpected EOF") ==> l.err is Error && l.err.(Error).Name == l.name && l.err.(Error).Pos == pos && l.err.(Error).Msg == msg
 
@@ -101,7 +102,13 @@ package parser
 // What a scanned token says about the pending word: a word token has parts,
 // an IO_NUMBER is one literal, anything else (operator, newline, EOF) leaves
 // no pending word.
+// A newline that is the next character, with nothing pending, is delivered as
+// the newline token having consumed exactly that character (so a blank line is
+// a command of its own and the call that meets it reads no further).
+//@ spec func atnewline(l *lexer) bool = len(l.aliases) == 0 && l.b == "" && len(l.word) == 0 && 0 <= srcpos() && srcpos() < srclen() && srcrune(srcpos()) == '\n'
 //@ func (*lexer).scanRaw
+//@   loop "for" invariant[C07] nothing-consumed-before-the-newline: old(atnewline(l)) ==> srcpos() == old(srcpos()) && len(l.aliases) == 0 && l.b == "" && len(l.word) == 0
+//@   ensures[C07] newline-is-a-token-of-its-own: old(atnewline(l)) ==> (result == '\n' && srcpos() == old(srcpos()) + 1) || result == -1
 //@   ensures result != NAME && result != ASSIGNMENT_WORD
 //@   ensures result == WORD ==> len(l.word) >= 1
 //@   ensures result == IO_NUMBER ==> len(l.word) == 1 && l.word[0] is *ast.Lit
@@ -342,6 +349,7 @@ package parser
 // does not advance, and unread takes back exactly the rune just read.
 //@ func (*lexer).read
 //@   ensures[C07 C09] delivers-next-rune: old(len(l.aliases)) == 0 && result1 == nil ==> len(l.aliases) == 0 && srcpos() == old(srcpos()) + 1 && result0 == srcrune(old(srcpos())) && 0 <= old(srcpos()) && old(srcpos()) < srclen() && lastread()
+//@   ensures[C07 C09] end-of-input-only-at-the-end: old(len(l.aliases)) == 0 && result1 == io.EOF ==> srcpos() >= srclen()
 //@   ensures[C07 C09] failed-read-consumes-nothing: old(len(l.aliases)) == 0 && result1 != nil ==> len(l.aliases) == 0 && srcpos() == old(srcpos()) && !lastread() && (result1 == io.EOF ==> l.eof) && (result1 != io.EOF ==> l.err != nil)
 //@   ensures[C04] counts-a-character: old(len(l.aliases)) == 0 && result1 == nil && result0 != '\n' ==> l.line == old(l.line) && l.col == old(l.col) + 1
 //@   ensures[C04] counts-a-line: old(len(l.aliases)) == 0 && result1 == nil && result0 == '\n' ==> l.line == old(l.line) + 1 && l.col == 1 && l.prevCol == old(l.col)
